@@ -107,6 +107,10 @@ BLOOM_MC_NEGATIVE = ["MC_BloomDesign_neg.cfg", "MC_BloomDesign_neg_qau.cfg", "MC
       "lists; bits read from the serialized image / caller memory; a segment (Begin..next Begin) is non-trivial when memory written through a "
       "view was re-wrapped or deserialized and a previously inserted item was then found through a view or restored filter and a set operation "
       "between two different filters succeeded, or when it carries FPP verdicts; distinct = distinct segment content hash; "
+      "every recorded file starts with a DIRECTED restore-then-continue segment: at the EMPTY filter, at exactly ONE item and right after reset(), the image "
+      "(serialize bytes/stream/header forms, and caller memory left by an initialize_by_size view) is restored through deserialize(bytes), "
+      "deserialize(stream), wrap and writable_wrap, and the restored object continues in lock-step with the original (updates, query_and_update, "
+      "bits_used, queries, union/intersect as operand and target, reset, re-serialization); clauses on restored objects are owned by C09 and C15; "
       "spec -> impl: GenBloom.tla makes TLC emit one behaviour per generated transition of the design model (1 region, 3 view slots, 3 items with "
       "overlapping index pairs; Wrap/WWrap/Deser/Copy/Update incl. through stale views/QueryUpdate/BitsUsed/Reset/Invert/Union/Intersect/Drop; "
       "quick: all of depth 4; thorough: all of depth 5 and every 16th of depth 6), `bloom_rec --replay` runs them on real filters (capacity 64/128/192, items mined with the "
